@@ -67,9 +67,29 @@ Your final message: one line per change: ID-a/b, summary, observable difference.
 """
 
 
+FREEDOM = """
+## Style of this round: use the freedom the statement leaves
+In this round do NOT write refactors or message rewordings. For each property write TWO changes (`<ID>-c`, `<ID>-d`; put them in
+`{out}/<ID>-c/` and `{out}/<ID>-d/`) that change REAL BEHAVIOUR, but only inside the freedom the property's statement (and the
+documentation / RFCs) leaves:
+* where the statement allows alternatives ("answers 400 or closes", "either raises or ...", "at most", "only if"), switch the
+  implementation from one allowed alternative to another, or make it take the other alternative in some sub-case;
+* where the statement is silent about a case (an input class outside its quantified domain, an ordering it does not fix, a value
+  it does not constrain, what happens AFTER the point where it stops promising anything), change what happens there;
+* where the statement bounds something from one side only ("never more than", "no later than", "accepts only"), move the
+  behaviour further to the safe side (stricter limit enforcement, earlier close, rejecting more malformed input that the
+  statement lists as rejectable or leaves open) — never to the unsafe side;
+* where an RFC the library implements says MAY/SHOULD, take the other permitted option.
+The existing test suite must still pass (it pins a lot; read the tests touching your code first). State precisely in meta.json
+which sentence of the statement permits the new behaviour ("permitted_by"). If a property leaves no such freedom that the test
+suite does not pin, deliver only one change or write meta.json with "failed": "<why>".
+"""
+
+
 def main():
     tag, n, outdir = sys.argv[1], int(sys.argv[2]), sys.argv[3]
-    only = sys.argv[4].split(",") if len(sys.argv) > 4 else None
+    only = None
+    style = "freedom" if "--freedom" in sys.argv else "refactor"
     props = [json.loads(l) for l in open(os.path.join(V, "properties.jsonl"))]
     if only:
         props = [p for p in props if p["id"] in only]
@@ -78,10 +98,12 @@ def main():
     # interleave so one author gets properties of different areas
     groups = [[] for _ in range(n)]
     for i, p in enumerate(props):
-        groups[i % n].append(p)
+        groups[(i * 3 + i // n) % n if style == "freedom" else i % n].append(p)
     for k, g in enumerate(groups, 1):
         wt = "/tmp/seed/s%d" % k
         txt = TEMPLATE.format(tag="%s-%d" % (tag, k), wt=wt, out=outdir)
+        if style == "freedom":
+            txt = txt.replace("## Properties\n", FREEDOM.format(out=outdir) + "\n## Properties\n")
         for p in g:
             anchors = p.get("anchors")
             txt += "\n### %s — %s\n\n**Statement.** %s\n\n**Quantified over.** %s\n\n**Where the mechanism lives.** %s\n" % (
